@@ -1,10 +1,80 @@
 import PewDriver.Util
+import PewModel.Register
 open Lean
 namespace PewDriver.C12
-open PewDriver
+open PewDriver Pew.Register
 
-def handle (op : String) (_req : Json) : R Json := do
+def flatIndex : List Nat → List Nat → Option Nat
+  | [], [] => some 0
+  | s :: ss, i :: is =>
+    if i < s then (flatIndex ss is).map (fun r => i * ss.foldl (· * ·) 1 + r) else none
+  | _, _ => none
+
+def mkGet (shape : List Nat) (data : Array Rat) : List Nat → Rat := fun idx =>
+  match flatIndex shape idx with
+  | some k => data.getD k 0
+  | none => 0
+
+def parseImg (j : Json) : R Img := do
+  let shape ← getList asNat j "shape"
+  let data ← getList asRat j "data"
+  if data.length ≠ shape.foldl (· * ·) 1 then throw "data/shape mismatch"
+  if shape.any (· == 0) then throw "empty axis"
+  pure { shape := shape, get := mkGet shape data.toArray }
+
+def parseAnchor (s : String) : R Anchor :=
+  match s with
+  | "top left" => pure .topLeft
+  | "top right" => pure .topRight
+  | "bottom left" => pure .bottomLeft
+  | "bottom right" => pure .bottomRight
+  | "center" => pure .center
+  | _ => throw s!"bad anchor {s}"
+
+def jPair (p : Int × Int) : Json := jList jInt [p.1, p.2]
+
+def handle (op : String) (req : Json) : R Json := do
   match op with
+  | "c12.register" =>
+    let a ← fld req "a" >>= parseImg
+    let b ← fld req "b" >>= parseImg
+    if a.shape.length ≠ b.shape.length then throw "dimension mismatch"
+    let model := register a b
+    match peak a b with
+    | none => throw "empty lag box"
+    | some pk =>
+      pure (jObj [("model", jList jInt model), ("lag", jList jInt pk.lag), ("max", jRat pk.value),
+                  ("runner", jOpt jRat pk.runnerUp)])
+  | "c12.anchor" =>
+    -- every anchor for one `a` shape and a list of `b` shapes
+    let a ← getList asInt req "a"
+    let bs ← getList (asList asInt) req "bs"
+    let names ← getList asStr req "anchors"
+    let ans ← names.mapM parseAnchor
+    match a with
+    | [a0, a1] =>
+      let rows ← bs.mapM (fun b => match b with
+        | [b0, b1] => pure (ans.map fun an => (anchorMech a0 a1 b0 b1 an, anchorSpec a0 a1 b0 b1 an))
+        | _ => throw "b must be 2-D")
+      pure (jObj [("model", jList (jList (fun r => jPair r.1)) rows),
+                  ("spec", jList (jList (fun r => jPair r.2)) rows)])
+    | _ => throw "a must be 2-D"
+  | "c12.merge" =>
+    -- two windows of one scene merged at their true offsets (scene coordinates)
+    let sc ← fld req "scene" >>= parseImg
+    let ndim := sc.shape.length
+    let offA ← getList asInt req "offA"
+    let offB ← getList asInt req "offB"
+    let shA ← getList asNat req "shapeA"
+    let shB ← getList asNat req "shapeB"
+    let scene : Pew.Overlap.Idx → Rat := fun p =>
+      if p.all (0 ≤ ·) then sc.get (p.map Int.toNat) else 0
+    let arrs := [window scene offA shA, window scene offB shB]
+    let mo := Pew.Overlap.minOffset ndim arrs
+    let (sh, mv) := Pew.Overlap.overlap false .replace none ndim arrs
+    let sv := (Pew.Overlap.allIdx (sh.map Int.toNat)).map
+      (fun p => sceneOnUnion scene none arrs (List.zipWith (· + ·) p mo))
+    pure (jObj [("shape", jList jInt sh), ("model", jList (jOpt jRat) mv), ("spec", jList (jOpt jRat) sv)])
   | _ => throw s!"unknown op {op}"
 
 end PewDriver.C12
